@@ -3,6 +3,8 @@ package checks
 import (
 	"fmt"
 	"github.com/remieven/ysgo/variable"
+	"math"
+	"strings"
 	"time"
 
 	"github.com/remieven/ysgo/verifx/internal/explore"
@@ -397,6 +399,99 @@ func runC02(ctx *report.Ctx) {
 			exprCase(ctx, c, "STR", e, nil)
 		})
 	}
+
+	// REFUSED-CALL: function arguments are evaluated and handed over exactly once per call, whatever the call before was
+	// given: a call with matching arguments, a call the bridge refuses (wrong type at every position, wrong count), then a
+	// matching call again - on converted host functions (fixed, variadic, mixed) and a two-parameter built-in
+	type rcall struct {
+		args string
+		want *yc.Value // nil: the call must be an error
+	}
+	num := func(f float64) *yc.Value { v := yc.Num(f); return &v }
+	str := func(t string) *yc.Value { v := yc.Str(t); return &v }
+	rfuncs := []struct {
+		name  string
+		calls []rcall
+	}{
+		{"conv2", []rcall{{`1, "x"`, str("1|x")}, {`7, ""`, str("7|")}, {`1, 2`, nil}, {`"a", "b"`, nil}, {`1`, nil}, {`1, "x", "y"`, nil}, {`1, true`, nil}}},
+		{"sumv", []rcall{{``, num(0)}, {`2, 3`, num(5)}, {`4`, num(4)}, {`1, "two"`, nil}, {`"a"`, nil}, {`1, 2, true`, nil}}},
+		{"mix", []rcall{{`1`, str("1")}, {`2, "a", "b"`, str("2ab")}, {`1, 2`, nil}, {`1, "a", 3`, nil}, {`"x"`, nil}, {``, nil}}},
+		{"round_places", []rcall{{`1.26, 1`, num(1.3)}, {`7.123, 2`, num(7.12)}, {`1.26, "s"`, nil}, {`1.26`, nil}, {`"a", 1`, nil}, {`1.26, 1, 1`, nil}}},
+	}
+	part(ctx, "REFUSED-CALL", -1, func(c *explore.Chooser) {
+		f := rfuncs[c.Choose(len(rfuncs), "function")]
+		var seq []rcall
+		for i := 0; i < 3; i++ {
+			seq = append(seq, f.calls[c.Choose(len(f.calls), "call")])
+			if i == 0 && !c.Mine() {
+				return
+			}
+		}
+		var b strings.Builder
+		b.WriteString("title: A\n---\n")
+		var shown []string
+		for _, cl := range seq {
+			b.WriteString("<<call cap(" + f.name + "(" + cl.args + "))>>\nm\n")
+			shown = append(shown, f.name+"("+cl.args+")")
+		}
+		b.WriteString("===\n")
+		w := "calls in a row on one runner: " + strings.Join(shown, ", ")
+		ctx.Current("REFUSED-CALL: " + w)
+		r, err, pan := yc.NewReal([]string{b.String()}, "abc", nil)
+		if err != nil || pan != "" {
+			ctx.HarnessError("C02: harness script does not load: %v %s\n%s", err, pan, b.String())
+			return
+		}
+		var got []yc.Value
+		invoked := 0
+		r.DR.AddFunction("cap", func(args []*variable.Value) (*variable.Value, error) { got = yc.RealArgs(args); return nil, nil })
+		r.DR.ConvertAndAddFunction("conv2", func(a int, t string) string { invoked++; return fmt.Sprint(a, "|", t) })
+		r.DR.ConvertAndAddFunction("sumv", func(xs ...int) int {
+			invoked++
+			n := 0
+			for _, x := range xs {
+				n += x
+			}
+			return n
+		})
+		r.DR.ConvertAndAddFunction("mix", func(a int, rest ...string) string { invoked++; return fmt.Sprint(a) + strings.Join(rest, "") })
+		ctx.AddEvals(1, 1)
+		ctx.AddStates(1)
+		ctx.AddTraces(1)
+		fail := func(clause, detail string) {
+			ctx.Violation(report.Violation{Clause: clause, Witness: w, Detail: detail, Choices: c.Choices(), Part: "REFUSED-CALL", Extra: map[string]any{"scripts": []string{b.String()}}})
+		}
+		for k, cl := range seq {
+			got, invoked = nil, 0
+			ro := r.Next(0)
+			ctx.AddTransitions(1)
+			if ro.Panic != "" {
+				fail("expr-call-panic", fmt.Sprintf("call %d (%s) panicked: %s", k+1, shown[k], ro.Panic))
+				return
+			}
+			isErr := ro.K == yc.OError
+			if isErr {
+				ro = r.Next(0)
+				ctx.AddTransitions(1)
+			}
+			if ro.K != yc.OLine || ro.Text != "m" {
+				fail("expr-call-sequence", fmt.Sprintf("after call %d (%s) the dialogue does not go on with the next line: %s", k+1, shown[k], ro.String()))
+				return
+			}
+			ctx.Outcome(fmt.Sprintf("%s err=%v %v", shown[k], isErr, got))
+			switch {
+			case cl.want == nil && (!isErr || got != nil || invoked != 0):
+				fail("expr-error-class", fmt.Sprintf("call %d: %s does not match the parameters and must be an error without invoking anything; error %v, value %v, invocations %d", k+1, shown[k], isErr, got, invoked))
+				return
+			case cl.want != nil && (isErr || len(got) != 1 || got[0].K != cl.want.K || (cl.want.K == yc.VStr && got[0].S != cl.want.S) || (cl.want.K == yc.VNum && math.Abs(got[0].N-cl.want.N) > 1e-9)):
+				fail("expr-call-value", fmt.Sprintf("call %d: %s must give %s; error %v, value %v", k+1, shown[k], cl.want, isErr, got))
+				return
+			case cl.want != nil && f.name != "round_places" && invoked != 1:
+				fail("expr-handler-log", fmt.Sprintf("call %d: %s invoked the Go function %d times", k+1, shown[k], invoked))
+				return
+			}
+		}
+	})
 
 	part(ctx, "G3-calls", -1, func(c *explore.Chooser) {
 		atom := func() *yc.Expr { return argAtoms[c.Choose(len(argAtoms), "atom")]() }
